@@ -24,14 +24,14 @@ TECHNIQUE = 'bounded-exhaustive enumeration of data nodes x transformation moves
 RULE = ('node = (calculator, base, <=1 deviation); edge = one transformation move from the stated alphabet; every move on every node; '
         'nontrivial = edges whose transformed input arrays differ from the original ones (all of them) on nodes that differ from the base')
 LEVEL_TEXT = 'Every transformation move of the alphabet is applied to every enumerated node; equalities are algebraic (same mesh), tolerance 1e-9 (k-mesh accuracy for displacement edges and for crystals with origin states).'
-LEVEL_NOTE = 'Moves use fixed constants (shifts +3.7/-11, scales 2 and 1/7, kT factors 0.5 and 3, rate scales 2, 1e-3, 1e4, 1e-13, 1e13); nothing is said about other constants.'
+LEVEL_NOTE = 'Moves use fixed constants (shifts +3.7/-11 and +-800 (absolute energies far beyond the range of exp()), scales 2 and 1/7, kT factors 0.5 and 3, rate scales 2, 1e-3, 1e4, 1e-13, 1e13); nothing is said about other constants.'
 
 TOL = 1e-9
 VM_QUICK = [('FCC', 0, 1), ('HCP', 0, 1), ('HONEY', 0, 1), ('OMEGA', 0, 1), ('RECTM', 0, 1), ('SQUARE', 0, 2)]
 VM_THOROUGH = VM_QUICK + [('BCC', 0, 1), ('SC', 0, 1), ('DIAMOND', 0, 1), ('B2', 0, 1), ('ROMEGA', 0, 1), ('FCC', 0, 2), ('TRIA', 0, 1), ('NBO', 0, 1)]
-MOVES = [('vshift', 3.7), ('vshift', -11.), ('sshift', 3.7), ('sshift', -11.), ('vpre', 2.), ('vpre', 1 / 7.), ('spre', 2.), ('spre', 1 / 7.),
+MOVES = [('vshift', 3.7), ('vshift', -11.), ('sshift', 3.7), ('sshift', -11.), ('vshift', 800.), ('sshift', -800.), ('vpre', 2.), ('vpre', 1 / 7.), ('spre', 2.), ('spre', 1 / 7.),
          ('kT', 0.5), ('kT', 3.), ('rate', 2.), ('rate', 1e-3), ('rate', 1e4), ('rate', 1e-13), ('rate', 1e13)]
-IMOVES = [('shift', 3.7), ('shift', -11.), ('pre', 2.), ('pre', 1 / 7.), ('rate', 2.), ('rate', 1e-3), ('rate', 1e4), ('rate', 1e-13), ('rate', 1e13)]
+IMOVES = [('shift', 3.7), ('shift', -11.), ('shift', 800.), ('shift', -800.), ('pre', 2.), ('pre', 1 / 7.), ('rate', 2.), ('rate', 1e-3), ('rate', 1e4), ('rate', 1e-13), ('rate', 1e13)]
 DISPLACED = [('RECTM', 'RECTM2', 0), ('ROMEGA51', 'ROMEGA', 0)]
 CHUNK = 10
 
